@@ -317,6 +317,23 @@ static int tx_probe(void)
 	return pgno;
 }
 
+/* A page of the current station that is still in progress: header and one row, no terminating header yet.  It is in
+ * the magazine of the next probe page, whose header will terminate it - if it is still there. */
+static int tx_open_page(void)
+{
+	uint8_t p[42];
+	int pgno = 0x300 + 0x100 * (probe_counter % 5) + 0x98;
+	int save = cur_rx;
+	cur_rx = -1;
+	tx_ttx_header(p, pgno, 0, 0, 0, "C13 PROBE                       ");
+	decode1(VBI_SLICED_TELETEXT_B, 7, p, 42);
+	tx_ttx_row(p, (pgno >> 8) & 7, 1, "PAGE IN PROGRESS AT THE STATION CHANGE");
+	decode1(VBI_SLICED_TELETEXT_B, 8, p, 42);
+	cur_rx = save;
+	vf_count("pages_left_in_progress", 1);
+	return pgno;
+}
+
 static int cached(int pgno)
 {
 	vf_phase("vbi_is_cached");
@@ -342,14 +359,17 @@ static void transmit(struct vf_rng *r, int i)
 		break;
 	}
 	case CR_8301: {
-		struct tx_8301 t = { x->cni, x->lto, x->mjd, x->hh, x->mm, x->ss, 1 };
+		/* designation code 0 (multiplexed transmission) or 1 (non-multiplexed): both are format 1 */
+		struct tx_8301 t = { x->cni, x->lto, x->mjd, x->hh, x->mm, x->ss, r ? (int)vf_below(r, 2) : 1 };
 		tx_8301(p, &t);
+		vf_count(t.multiplexed ? "packets_8301_designation_0" : "packets_8301_designation_1", 1);
 		decode1(VBI_SLICED_TELETEXT_B, 10, p, 42);
 		break;
 	}
 	case CR_8302: {
 		struct tx_8302 t = { x->cni, x->pil, x->lci, x->luf, x->prf, x->mi, x->pcs, x->pty };
 		tx_8302(p, &t);
+		if (r && vf_chance(r, 1, 2)) { p[2] = tx_ham84(3); vf_count("packets_8302_designation_3", 1); }   /* format 2, non-multiplexed */
 		if (r && vf_chance(r, 1, 8)) {          /* one correctable bit error in a Hamming 8/4 byte */
 			p[9 + vf_below(r, 13)] ^= (uint8_t)(1u << vf_below(r, 8));
 			vf_count("hamming_single_bit_errors", 1);
@@ -1237,7 +1257,7 @@ static int run_hist(struct vf_rng *r, int twin, struct twin *tw)
 	int known[3] = { 0, 0, 0 };
 	struct prog pg; struct tx_wss wss; struct clock_ ck;
 	int cooldown[4] = { 0, 0, 0, 0 };
-	int probe = 0;
+	int probe = 0, open_pg = 0;
 	int o = 0;
 	const struct station *st_prev = NULL;
 
@@ -1321,6 +1341,23 @@ static int run_hist(struct vf_rng *r, int twin, struct twin *tw)
 		probe = tx_probe();
 		ph[phase].probe = probe;
 		if (!cached(probe)) { vf_fail("harness:C13:probe-not-cached", "probe page %x not cached right after transmission", probe); del_decoder(); return 0; }
+		/* The page that was in progress when the station changed: if the change dropped the old station's pages (the old
+		 * probe page is gone), a page of the old station whose header came before the change must not be stored under the
+		 * new one when the next header of its magazine arrives. */
+		if (open_pg && !twin) {
+			int oc = cached(open_pg);
+			vf_count("pages_in_progress_observed", 1);
+			/* dropped between the two observations, that is after the page in progress was begun */
+			if (phase > 0 && ph[phase].changed_station && ph[phase].probe_before && ph[phase - 1].probe_cached_at_end && !ph[phase].old_probe_cached_after_settle) {
+				vf_count("pages_in_progress_at_a_station_change_that_dropped_the_cache", 1);
+				if (oc) {
+					vf_fail("model:C13:R5:old-page-in-progress-stored", "page %x of the previous station was in progress (header and a row received, not terminated) when the station changed in phase %d; the change dropped the cached pages (probe page %x is gone) but this page was stored afterwards, when the next header of its magazine arrived; %s",
+						open_pg, phase, ph[phase].probe_before, desc);
+					del_decoder(); return 0;
+				}
+			}
+		}
+		open_pg = 0;
 
 		/* --- steady, with single deviations, programme and format changes --- */
 		steady = vf_range(r, 8, 60);
@@ -1368,6 +1405,7 @@ static int run_hist(struct vf_rng *r, int twin, struct twin *tw)
 		}
 		ph[phase].end = n_rx;
 		ph[phase].probe_cached_at_end = cached(probe);
+		open_pg = (phase + 1 < nphase && vf_chance(r, 1, 2)) ? tx_open_page() : 0;
 	}
 	idle_frames(3);
 
